@@ -287,6 +287,12 @@ func (g *Gen) Distinct(n int) []string {
 	return out
 }
 
+// BoundaryEscapes are escape sequences at and beyond the validity boundaries: text/scanner checks only
+// the shape of an escape, strconv.Unquote also its value
+var BoundaryEscapes = []string{`\377`, `\400`, `\777`, `\378`, `\ud7ff`, `\ud800`, `\udbff`, `\udfff`, `\ue000`, `\U0010FFFF`, `\U00110000`,
+	`\UFFFFFFFF`, `\U0000D800`, `\x7f`, `\x80`, `\xff`, `\x4`, `\xg0`, `\u12`, `\u123g`, `\U0001F60`, `\0`, `\08`, `\8`, `\q`, `\'`, `\ `, `\`,
+	`\x`, `\u`, `\U`, `\1`, `\12`, `\"`, `\\`, `\a\b\f\n\r\t\v`, `\u0000`, `\x00`, `\000`}
+
 var oddEscapes = []string{`\x41`, `\101`, `é`, `\U0001F600`, `\q`, `\400`, `\377`, `\ud800`, `\U00110000`,
 	`\'`, `\xZZ`, `\x4`, `\u12`, `\0`, `\08`, `\xe9`, `\xc3\xa9`, `\n`, `\"`, `\\`, `\a\b\f\r\t\v`, `\u0000`, `\x00`}
 
@@ -348,7 +354,7 @@ func (g *Gen) element(code string) string {
 			"0o17", "017", "1_0", "65535", "65536", "+5", "18446744073709551615", "18446744073709551616", " 7", "7 ", "1e3", "0x", "_1"})
 	}
 	s := g.String()
-	switch x := g.r.Intn(12); {
+	switch x := g.r.Intn(14); {
 	case x < 5:
 		return strconv.Quote(s)
 	case x < 7:
@@ -358,7 +364,26 @@ func (g *Gen) element(code string) string {
 	case x < 11:
 		return "'" + coqfmt.Pick(g.r, []string{"a", "ab", "", `\n`, `\'`, "é", `\x41`}) + "'"
 	default:
-		return strconv.Quote(s) + coqfmt.Pick(g.r, oddEscapes)
+		if g.r.Chance(1, 3) {
+			return strconv.Quote(s) + coqfmt.Pick(g.r, oddEscapes)
+		}
+		// a boundary escape INSIDE the quotes (at the start, in the middle or right before the closing quote)
+		q := strconv.Quote(s)
+		e := coqfmt.Pick(g.r, BoundaryEscapes)
+		switch g.r.Intn(3) {
+		case 0:
+			return q[:1] + e + q[1:]
+		case 1:
+			return q[:len(q)-1] + e + q[len(q)-1:]
+		}
+		i := 1 + g.r.Intn(len(q)-1)
+		for !utf8.RuneStart(q[i]) {
+			i--
+		}
+		if i > 1 && q[i-1] == '\\' { // do not split an escape of the quoted text
+			i--
+		}
+		return q[:i] + e + q[i:]
 	}
 }
 
